@@ -23,6 +23,8 @@ RULES13 = ['InverseBinaryRule', 'BlockRowBlockDiagonalRule', 'BlockDiagonalBlock
            'LinearPolarizerHWPRule']
 
 PLAN = {
+    'C07': _p(shards={'x32': 12, 'x64': 4}, quick=110, thorough=4000,
+              required_classes={'all': ['rule:' + r for r in RULES13] + ['rule:IdentityRule', 'rule:HomothetyRule']}),
     'C10': _p(quick=90, thorough=2500),
     'C05': _p(quick=90, thorough=2500),
     'C03': _p(quick=90, thorough=2500),
